@@ -23,6 +23,8 @@ func isTypeLetter(c byte) bool {
 	return false
 }
 
+var extremeNumbers = []string{"9223372036854775807", "9223372036854775806", "4611686018427387904", "4611686018427387903", "2147483647", "2147483648", "4294967295", "4294967296", "536870912", "268435456", "-1", "0", "18446744073709551615", "-9223372036854775808"}
+
 var smallVals = []uint32{0, 1, 2, 3, 4, 7, 8, 9, 15, 16, 17, 21, 62, 63, 64, 127, 128, 255, 256, 257, 4095, 4096, 65535, 65536}
 
 // MutateBinary returns a structure-aware mutation of b: length/count field
@@ -184,7 +186,19 @@ func MutateText(rng *rand.Rand, b, other []byte) []byte {
 					digs = append(digs, i)
 				}
 			}
-			if len(digs) > 0 {
+			if len(digs) > 0 && rng.Intn(2) == 0 {
+				// replace a whole number by a value at the edge of an integer type
+				i := digs[rng.Intn(len(digs))]
+				a, b := i, i+1
+				for a > 0 && out[a-1] >= '0' && out[a-1] <= '9' {
+					a--
+				}
+				for b < len(out) && out[b] >= '0' && out[b] <= '9' {
+					b++
+				}
+				num := []byte(extremeNumbers[rng.Intn(len(extremeNumbers))])
+				out = append(out[:a], append(num, out[b:]...)...)
+			} else if len(digs) > 0 {
 				i := digs[rng.Intn(len(digs))]
 				num := []byte("99999999999999999999999")[:1+rng.Intn(22)]
 				out = append(out[:i], append(num, out[i:]...)...)
